@@ -99,6 +99,7 @@ func cmdAsyncLoad(f hx.Flags, r *hx.Result) {
 	arrivalsSurvive(r)
 	twoLoggers(r)
 	slowDrain(r)
+	rawToEveryRef(r)
 	for run := 0; run < runs && !hx.Stopped(); run++ {
 		pi := run % 3
 		mode := modes[(run/3)%3]
@@ -434,6 +435,67 @@ func twoLoggers(r *hx.Result) {
 			if ret, pv := hx.Within(15*time.Second, func() { lg.Stop() }); !ret || pv != nil {
 				r.Violate("stop-failed", desc, "Stop returned=%v panic=%v", ret, pv)
 				return
+			}
+		}
+	}
+}
+
+// rawToEveryRef: raw writes carry no level; after Stop each one has been handed to every appender of the logger exactly
+// once (or counted), whatever level ranges the references have - here [INFO,ERROR) and [ERROR,MAX), the shape the
+// rolling-file logger uses for its separate .wf file.
+func rawToEveryRef(r *hx.Result) {
+	for _, pol := range []log.BufferFullPolicy{log.BufferFullPolicyBlock, log.BufferFullPolicyDiscard, log.BufferFullPolicyDiscardOldest} {
+		lo, hi := &loadAppender{mode: "fast"}, &loadAppender{mode: "fast"}
+		lg := &log.AsyncLogger{
+			LoggerBase: log.LoggerBase{Level: log.LevelRange{MinLevel: log.InfoLevel, MaxLevel: log.MaxLevel}},
+			AppenderRefs: log.AppenderRefs{AppenderRefs: []*log.AppenderRef{
+				{Appender: lo, Level: log.LevelRange{MinLevel: log.InfoLevel, MaxLevel: log.ErrorLevel}},
+				{Appender: hi, Level: log.LevelRange{MinLevel: log.ErrorLevel, MaxLevel: log.MaxLevel}}}},
+			BufferSize: 1000, BufferFullPolicy: pol,
+		}
+		if err := lg.Start(); err != nil {
+			r.SetInfra("rawToEveryRef: %v", err)
+			return
+		}
+		for id := int64(1); id <= 60; id++ {
+			switch id % 3 {
+			case 0:
+				lg.Write([]byte(fmt.Sprintf("RAW id=%d payload\n", id)))
+			default:
+				e := log.GetEvent()
+				e.Level, e.Time, e.Tag = []log.Level{log.InfoLevel, log.ErrorLevel}[id%2], time.Now(), "load"
+				e.Fields = []log.Field{log.Int("id", id)}
+				lg.Append(e)
+			}
+		}
+		desc := map[string]any{"references": "[INFO,ERROR) and [ERROR,MAX)", "items": "40 events, 20 raw writes, buffer far from full"}
+		if ret, pv := hx.Within(15*time.Second, func() { lg.Stop() }); !ret || pv != nil {
+			r.Violate("stop-failed", desc, "Stop returned=%v panic=%v", ret, pv)
+			return
+		}
+		r.Eval(60)
+		cnt := func(a *loadAppender) map[int64]int {
+			m := map[int64]int{}
+			a.mu.Lock()
+			for _, id := range a.ids {
+				m[id]++
+			}
+			a.mu.Unlock()
+			return m
+		}
+		cl, ch := cnt(lo), cnt(hi)
+		for id := int64(1); id <= 60; id++ {
+			wl, wh := 1, 1 // raw: both
+			if id%3 != 0 {
+				wl, wh = 1, 0
+				if id%2 == 1 {
+					wl, wh = 0, 1
+				}
+			}
+			if cl[id] != wl || ch[id] != wh {
+				r.Violate("conservation:per-reference", desc, "item %d (%s): delivered %d x to the [INFO,ERROR) appender and %d x to the [ERROR,MAX) one, want %d / %d; discard counter %d",
+					id, map[bool]string{true: "raw write", false: "event"}[id%3 == 0], cl[id], ch[id], wl, wh, lg.GetDiscardCounter())
+				break
 			}
 		}
 	}
